@@ -390,6 +390,9 @@ func (c *Conv) applyConv1D(x, kernel tensor.Tensor) (tensor.Tensor, error) {
 			}
 
 			subKernel := subKernelView.Materialize()
+			if err := subKernel.Reshape(kernel.Shape()[1:]...); err != nil {
+				return nil, err
+			}
 
 			for h := 0; h < paddedX.Shape()[2]; h += strideSize {
 				dimHOutputIdx := h / strideSize
@@ -456,6 +459,9 @@ func (c *Conv) applyConv2D(x, kernel tensor.Tensor) (tensor.Tensor, error) {
 			}
 
 			subKernel := subKernelView.Materialize()
+			if err := subKernel.Reshape(kernel.Shape()[1:]...); err != nil {
+				return nil, err
+			}
 
 			// Loop over all 2D subImages of the input image and compute the convolution
 			// for that subImage. Store the result at the right place in the output tensor.
@@ -584,12 +590,19 @@ func (c *Conv) getSubImage(x tensor.Tensor, batchIdx int, startSpatialCoords ...
 		slices = append(slices, ops.NewSlicer(dimStartIdx, dimStartIdx+dimKernelSize))
 	}
 
-	subImage, err := x.Slice(slices...)
+	subImageView, err := x.Slice(slices...)
 	if err != nil {
 		return nil, err
 	}
 
-	return subImage.Materialize(), nil
+	// Slicing drops every sliced dimension that is left with a single element (e.g. for a kernel
+	// of width 1), so restore the shape [C, kernelShape[0], kernelShape[1], ...].
+	subImage := subImageView.Materialize()
+	if err := subImage.Reshape(append([]int{x.Shape()[1]}, c.kernelShape...)...); err != nil {
+		return nil, err
+	}
+
+	return subImage, nil
 }
 
 // addBias adds a bias to the output of the convolution. It reshapes the
